@@ -46,7 +46,7 @@ def reference_density(M, mf, res, p4):
             * q**J
             * refmath.bprime(J, p, p0, D_RADIUS)
             * refmath.bprime(J, q, q0, D_RADIUS)
-            * refmath.bwr(m, r["mass"], r["width"], q, q0, J, D_RADIUS)
+            * (r["shape"](m) if r.get("shape") is not None else refmath.bwr(m, r["mass"], r["width"], q, q0, J, D_RADIUS))
             * refmath.legendre(J, cth)
         )
         tot = tot + amp
